@@ -175,6 +175,13 @@ def main(argv=None):
     if not sel:
         print("CHECKER-BROKEN property=%s no function under contract carries this property" % prop)
         return 3
+    # configuration self-check: a contract that lists this property for a clause group whose facet letter the property
+    # does not generate would have those clauses silently skipped
+    skipped = []
+    for K, facets in sel:
+        for attr, letter in (("cprops", "C"), ("sprops", "S"), ("eprops", "E"), ("tprops", "T"), ("fprops", "F"), ("vprops", "VR")):
+            if prop in getattr(K, attr) and not any(l in facets for l in letter) and not any(l in getattr(K, "skip_facets", "") for l in letter):
+                skipped.append("%s lists %s in %s but facet %s is not generated for %s" % (K.name, prop, attr, letter, prop))
     tasks = []
     for K, facets in sel:
         for cfg in K.configs(tier):
@@ -205,7 +212,7 @@ def main(argv=None):
         results = list(results) + [r for r in hres if not r.get("history_na")]
 
     findings = load_findings()
-    broken = []
+    broken = list(skipped[:5])
     obligations = []        # (function, cfg, ob)
     for r in results:
         for e in r["engine_errors"]:
